@@ -40,6 +40,7 @@ def on_field(callees, field, argi=0):
 
 def run(R):
     liveness_rules(R)
+    retain_rules(R)
     F = R.F
     R.who_may_write("C08.own.ongoing", RF, "on_going_fetches", WRITERS, floor=7, descr="on_going_fetches is touched only by the fetcher's own scheduling/completion functions")
     R.who_may_write("C08.own.queue", RF, "to_be_fetched", WRITERS, floor=8, descr="to_be_fetched is touched only by the fetcher's own functions")
@@ -325,6 +326,13 @@ def liveness_rules(R):
         if not okc:
             R.viol("C08.range.set", "range-not-stored", "set_replication_distance_range does not store exactly the range it is given (%s)" % (calls[:2] or "assignment changed"), sr, sr.lines[0])
         R.inst("C08.range.set", "K6 flows-to", "distance_range = Some(the new range)", len(ws), okc)
+    # (d0) the immediate-fetch shortcut of add_keys (which skips the range filter) applies to a list that reduced to exactly one new key
+    ak0 = R.body("C08.admit.single", RFP + "add_keys")
+    if ak0 is not None:
+        lens_ = lambda b: Taint(b).closure({blk["term"]["d"][0] for blk in b.blocks if blk["term"]["k"] == "call" and (blk["term"]["ncallee"] or "").endswith("Vec::len")})
+        one = _ConstCmp(F, lens_, lambda v: v == 1, ("Eq",), "new_incoming_keys.len() == 1")
+        R.gate("C08.admit.single", ak0, CallSink("*VacantEntry<'a, K, V, A>::insert", "*VacantEntry::insert", "std::collections::hash::map::VacantEntry::insert"), [[one]],
+               descr="add_keys starts a fetch directly (without the range filter) only for a single new key")
     # (d)
     ak = R.body("C08.admit.prune", RFP + "add_keys")
     if ak is not None:
@@ -351,3 +359,26 @@ def liveness_rules(R):
                 R.viol("C08.wiring.dispatch", "keys-not-dispatched", "handle_local_cmd can return after notify_about_new_put scheduled fetches without dispatching them (KeysToFetchForReplication): "
                        "the entries sit in the in-flight set until they time out and their holders are blamed", hlc, blk["term"]["l"])
         R.inst("C08.wiring.dispatch", "K5 must-follow", "fetches scheduled by notify_about_new_put are always dispatched", len(notif), oke)
+
+
+def _kt(body, c):
+    """classify a comparison inside a fetcher retain closure: K = the two record keys are equal, T = the two record types are equal"""
+    ta_, tb_ = body.locals.get(str(op_local(c["a"])), ""), body.locals.get(str(op_local(c["b"])), "")
+    if "RecordType" in ta_ and "RecordType" in tb_:
+        return "T"
+    if "libp2p_kad::record::Key" in ta_ and "libp2p_kad::record::Key" in tb_:
+        return "K"
+    return None
+
+
+def retain_rules(R, pfx="C08"):
+    """Which entries leave the queue / the in-flight set when a record arrives, a fetch completes early, or keys turn out to be held
+    (shared with C09): decided as truth tables of the retain closures over (key equal, type equal, key stored)."""
+    notKT = lambda e: not (e.get("K", False) and e.get("T", False))
+    R.retain_polarity(pfx + ".leave.put.queue", RFP + "notify_about_new_put", "to_be_fetched", notKT, "a stored record drops exactly the queued entries of its (key, type)", _kt)
+    R.retain_polarity(pfx + ".leave.put.inflight", RFP + "notify_about_new_put", "on_going_fetches", lambda e: not e.get("K", False), "a stored record completes exactly the in-flight fetches of its key", _kt)
+    R.retain_polarity(pfx + ".leave.early.queue", RFP + "notify_fetch_early_completed", "to_be_fetched", notKT, "an early-completed fetch drops exactly the queued entries of its (key, type)", _kt)
+    R.retain_polarity(pfx + ".leave.early.inflight", RFP + "notify_fetch_early_completed", "on_going_fetches", notKT, "an early-completed fetch leaves the in-flight set exactly for its (key, type)", _kt)
+    notST = lambda e: not (e.get("S", False) and e.get("T", False))
+    R.retain_polarity(pfx + ".leave.stored.queue", RFP + "remove_stored_keys", "to_be_fetched", notST, "queued entries are dropped exactly when the key is held with the same type", _kt)
+    R.retain_polarity(pfx + ".leave.stored.inflight", RFP + "remove_stored_keys", "on_going_fetches", notST, "in-flight entries are dropped exactly when the key is held with the same type", _kt)
